@@ -148,6 +148,9 @@ func c07Recovery(c *core.Ctx, idx int) {
 		bi := r.Intn(len(site.Boundaries))
 		j := site.Boundaries[bi]
 		m := gen.Benign[r.Intn(len(gen.Benign))]
+		for m[0] == "}" && site.Kind != "Root" {
+			m = gen.Benign[r.Intn(len(gen.Benign))]
+		}
 		var mt []gen.Tok
 		for _, s := range m {
 			mt = append(mt, gen.Tok{S: s})
@@ -298,7 +301,7 @@ func c07Hostile(c *core.Ctx, src []byte, ver string) {
 func init() {
 	core.Register(&core.Check{
 		ID:   "C07",
-		Rule: "cases = known-finding witnesses ++ alternately (a) a generated valid PHP-mode program with 4 (quick) / 12 (thorough) independent insertions of a benign malformed statement (16 shapes such as ') ;', '$x = ;', 'foo( ;') at a PRNG statement boundary of a PRNG statement list, compared with the clean parse, and (b) a hostile G3 input whose parse returns a tree together with errors, printed through the provenance writer; non-trivial = recovery program whose insertions were all compared / hostile tree printed; distinct by (clean text, version) / (input, version)",
+		Rule: "cases = known-finding witnesses ++ alternately (a) a generated valid PHP-mode program with 4 (quick) / 12 (thorough) independent insertions of a benign malformed statement (17 shapes such as ') ;', '$x = ;', 'foo( ;') at a PRNG statement boundary of a PRNG statement list, compared with the clean parse, and (b) a hostile G3 input whose parse returns a tree together with errors, printed through the provenance writer; non-trivial = recovery program whose insertions were all compared / hostile tree printed; distinct by (clean text, version) / (input, version)",
 		Assumptions: []string{
 			"benign malformed statements cannot extend the preceding statement nor start a valid one and end in ';'",
 			"printer glue = '<?php ', one blank, '?>'; every other chunk must alias the source buffer (token values are slices of it)",
